@@ -9,8 +9,13 @@ fn rc(r: (u64, u64)) -> TwoFloat {
     tf(f64::from_bits(r.0), f64::from_bits(r.1))
 }
 
-//@ id=C17 tier=quick to=1200 cfg=std exh=1 desc="atan2 on the axes for all valid operands: y == +-0 gives exactly 0 for x > 0 and +-pi (mpmath words) following the sign of y for x < 0; x == +-0 with y != 0 gives +-pi/2 following the sign of y"
-#[cfg_attr(kani, kani::proof)]
+//@ id=C17 tier=quick to=1200 cfg=std exh=1 stub=1 stubs="atan, /, +, - -> havoc: the axis cases are early returns that do not involve them" desc="atan2 on the axes for all valid operands: y == +-0 gives exactly 0 for x > 0 and +-pi (mpmath words) following the sign of y for x < 0; x == +-0 with y != 0 gives +-pi/2 following the sign of y"
+#[cfg_attr(all(kani, feature = "stubs"), kani::proof)]
+#[cfg_attr(all(kani, feature = "stubs"), kani::unwind(17))]
+#[cfg_attr(all(kani, feature = "stubs"), kani::stub(twofloat::TwoFloat::atan, crate::uf::havoc_unary))]
+#[cfg_attr(all(kani, feature = "stubs"), kani::stub(<&twofloat::TwoFloat as core::ops::Div<&twofloat::TwoFloat>>::div, crate::uf::havoc_tt))]
+#[cfg_attr(all(kani, feature = "stubs"), kani::stub(<&twofloat::TwoFloat as core::ops::Add<&twofloat::TwoFloat>>::add, crate::uf::havoc_tt))]
+#[cfg_attr(all(kani, feature = "stubs"), kani::stub(<&twofloat::TwoFloat as core::ops::Sub<&twofloat::TwoFloat>>::sub, crate::uf::havoc_tt))]
 pub fn c17_atan2_axes() {
     let y = any_valid();
     let x = any_valid();
@@ -51,6 +56,12 @@ pub fn c17_atan2_quadrants() {
     assume(y.hi() != 0.0 && x.hi() != 0.0);
     let r = y.atan2(x);
     let pi = rc(R::PI);
+    if native() {
+        let a = (y / x).atan();
+        let want = if x.hi() > 0.0 { a } else if y.hi() > 0.0 { a + pi } else { a - pi };
+        assert!(same(r, want));
+        return;
+    }
     #[allow(static_mut_refs)]
     unsafe {
         assert!(T_DIV_TT.n == 1 && T_DIV_TT.key[0] == k4(y, x));
@@ -130,6 +141,9 @@ pub fn atan_dispatch(iv: u8) {
     assume(x.hi() != 0.0);
     let r = x.atan();
     let neg = x.hi() < 0.0;
+    if native() {
+        return; // structural claim about the private kernel
+    }
     #[allow(static_mut_refs)]
     unsafe {
         assert!(T_RATAN.n == 1);
